@@ -3,6 +3,10 @@
 
 #include <AIToolbox/Logging.hpp>
 
+#ifdef AITOOLBOX_VERIF
+#include <functional>
+#endif
+
 #include <AIToolbox/POMDP/Types.hpp>
 #include <AIToolbox/POMDP/TypeTraits.hpp>
 
@@ -85,6 +89,27 @@ namespace AIToolbox::POMDP {
              */
             template <IsModel M>
             std::tuple<double, double, VList, MDP::QFunction> operator()(const M & model, const Belief & initialBelief);
+
+#ifdef AITOOLBOX_VERIF
+#define AITOOLBOX_VERIF_SARSOP_OBSERVER 1
+            /**
+             * @brief Verification hook: read-only view of the bounds after one iteration of the main loop.
+             */
+            struct VerifSnapshot {
+                double lb, ub;
+                const VList * lbVList;
+                const MDP::QFunction * ubQ;
+                const UpperBoundValueFunction * ubV;
+            };
+
+            /**
+             * @brief Verification hook: process-wide observer, called after each iteration of the main loop.
+             *
+             * If set, and it returns true, the loop stops after the current
+             * iteration (as if the tolerance had been reached).
+             */
+            static std::function<bool(const VerifSnapshot &)> & verifObserver();
+#endif
 
         private:
             /**
@@ -553,6 +578,11 @@ namespace AIToolbox::POMDP {
                 "; upper bound: " << treeStorage_[0].UB <<
                 "; alpha vectors: " << lbVList.size() <<
                 "; belief points: " << ubV.first.size());
+
+#ifdef AITOOLBOX_VERIF
+            if (verifObserver() && verifObserver()(VerifSnapshot{treeStorage_[0].LB, treeStorage_[0].UB, &lbVList, &ubQ, &ubV}))
+                break;
+#endif
 
             if (treeStorage_[0].UB - treeStorage_[0].LB <= tolerance_)
                 break;
